@@ -1,19 +1,1494 @@
-//! C01 (placeholder while probing): `eval run` reads one form per line from stdin.
-use mwv::session::*;
+//! C01 — evaluation agrees with the language semantics for core and derived forms.
+//!
+//! Typed generator of sessions (1–12 top-level forms) over the grammar of the property: core forms,
+//! the prelude's derived forms, fixed/variadic procedures, apply, eval, higher-order use,
+//! definitions and redefinitions of globals between forms, closures returned and called later,
+//! quasiquote templates (also inside returned closures), delay/force; no call/cc, no `,@`.
+//! Every form is run in a fresh `Vm` form by form; the line is
+//!   `eval-session <fuel> F:<features> <form text>…  \t  <results> || <output log>  \t  <same request>`
+//! which the Lean driver answers from `Spec.Eval`. The same session is run again in a second fresh
+//! VM (`#oracle fresh-vm`) and in a third one preceded by and interleaved with unrelated
+//! definitions (`#oracle independence`).
+//!
+//! Error classes are compared at the granularity R7RS gives them: `unbound`, `not-procedure`,
+//! `user` (raised by `error`) and `wrong` (arity / type / range / syntax: "it is an error").
+use marwood::cell::Cell;
+use marwood::vm::{SystemInterface, Vm};
+use mwv::progs::{a, int, l, Sx};
+use mwv::rng::Rng;
+use mwv::session::error_class;
 use mwv::wire::*;
-use std::io::BufRead;
+use std::cell::RefCell;
+use std::collections::BTreeSet;
+use std::io::{BufRead, Write};
+use std::rc::Rc;
+
+const FUEL: usize = 600;
+
+fn seed() -> u64 {
+    std::env::var("VERIF_SEED").ok().and_then(|s| s.parse().ok()).unwrap_or(1)
+}
+
+// ---------------------------------------------------------------- observation
+
+/// datum wire form; procedures carry no description (it is message text)
+fn enc(c: &Cell, out: &mut String) {
+    match c {
+        Cell::Procedure(_) => out.push_str("proc"),
+        Cell::Pair(x, d) => {
+            out.push_str("pair ");
+            enc(x, out);
+            out.push(' ');
+            enc(d, out);
+        }
+        Cell::Vector(v) => {
+            out.push_str(&format!("vec{}", v.len()));
+            for x in v {
+                out.push(' ');
+                enc(x, out);
+            }
+        }
+        other => out.push_str(&enc_datum(other)),
+    }
+}
+
+fn enc_s(c: &Cell) -> String {
+    let mut s = String::new();
+    enc(c, &mut s);
+    s
+}
+
+#[derive(Debug)]
+struct OutLog {
+    log: Rc<RefCell<Vec<String>>>,
+}
+
+impl SystemInterface for OutLog {
+    fn display(&self, cell: &Cell) {
+        self.log.borrow_mut().push(format!("d:{}", enc_s(cell)));
+    }
+    fn write(&self, cell: &Cell) {
+        self.log.borrow_mut().push(format!("w:{}", enc_s(cell)));
+    }
+    fn terminal_dimensions(&self) -> (usize, usize) {
+        (80, 24)
+    }
+    fn time_utc(&self) -> u64 {
+        0
+    }
+}
+
+fn fresh_vm() -> (Vm, Rc<RefCell<Vec<String>>>) {
+    let log = Rc::new(RefCell::new(vec![]));
+    let mut vm = Vm::new();
+    vm.set_system_interface(Box::new(OutLog { log: log.clone() }));
+    (vm, log)
+}
+
+fn coarse(class: &str) -> &'static str {
+    match class {
+        "unbound" => "unbound",
+        "not-procedure" => "not-procedure",
+        "user" => "user",
+        "arity" | "type" | "range" | "syntax" => "wrong",
+        "internal" => "internal",
+        "parse-incomplete" | "parse-other" | "lex" => "unreadable",
+        _ => "other",
+    }
+}
+
+/// evaluate one form with an instruction budget (a generated program that does not terminate must
+/// not hang the harness; the specification answers `timeout` for it)
+fn eval_budget(vm: &mut Vm, text: &str) -> Result<Cell, marwood::error::Error> {
+    let (cell, _) = marwood::parse::parse_text(text)?;
+    vm.prepare_eval(&cell)?;
+    match vm.run_count(3_000_000)? {
+        Some(c) => Ok(c),
+        None => Err(marwood::error::Error::InvalidBytecode), // rendered as `err internal`
+    }
+}
+
+fn run_form(vm: &mut Vm, text: &str) -> String {
+    match catch(std::panic::AssertUnwindSafe(|| eval_budget(vm, text))) {
+        Ok(Ok(c)) => format!("ok {}", enc_s(&c)),
+        Ok(Err(e)) => format!("err {}", coarse(error_class(&e))),
+        Err(p) => format!("panic {}", p.replace(['\t', '\n'], " ")),
+    }
+}
+
+/// results of the forms, joined, plus the output log
+fn run_session(forms: &[String], unrelated: Option<&[String]>) -> String {
+    let (mut vm, log) = fresh_vm();
+    let mut res = vec![];
+    if let Some(u) = unrelated {
+        // half of the unrelated definitions before the session, the rest interleaved
+        for d in &u[..u.len() / 2] {
+            let _ = run_form(&mut vm, d);
+        }
+    }
+    for (i, f) in forms.iter().enumerate() {
+        res.push(run_form(&mut vm, f));
+        if let Some(u) = unrelated {
+            let rest = &u[u.len() / 2..];
+            if i < rest.len() {
+                let _ = run_form(&mut vm, &rest[i]);
+            }
+        }
+    }
+    format!("{} || {}", res.join(" | "), log.borrow().join(" "))
+}
+
+// ---------------------------------------------------------------- generator
+
+#[derive(Clone, Debug)]
+struct Proc {
+    name: String,
+    fixed: usize,
+    variadic: bool,
+}
+
+/// `(define (mk a…) (lambda (x…) body))`; `data` = the inner procedure returns a datum (quasiquote)
+#[derive(Clone, Debug)]
+struct Maker {
+    name: String,
+    outer: usize,
+    inner: usize,
+    data: bool,
+}
+
+#[derive(Clone, Default)]
+struct Sc {
+    ints: Vec<String>,
+    mints: Vec<String>, // int variables that may be assigned (globals and let-bound)
+    bools: Vec<String>,
+    lists: Vec<String>,
+    procs: Vec<Proc>,
+    makers: Vec<Maker>,
+    promises: Vec<String>,
+    vecs: Vec<(String, usize)>,
+    global: bool, // generating at top level (no lambda in between): global names may be assumed defined
+    tainted: BTreeSet<String>, // procedures / makers / promises whose use may fail (failure injected in their body)
+}
+
+struct Gen {
+    rng: Rng,
+    fresh: usize,
+    feats: BTreeSet<&'static str>,
+    fail_per_mille: u64,
+    taint: bool,
+}
+
+const SYMS: [&str; 6] = ["a", "b", "c", "k", "foo", "bar"];
+const CHARS: [&str; 4] = ["#\\a", "#\\b", "#\\x", "#\\0"];
+const STRS: [&str; 4] = ["\"\"", "\"a\"", "\"hello\"", "\"two words\""];
+
+impl Gen {
+    fn new(seed: u64) -> Gen {
+        Gen { rng: Rng::new(seed), fresh: 0, feats: Default::default(), fail_per_mille: 0, taint: false }
+    }
+    fn fresh(&mut self, base: &str) -> String {
+        self.fresh += 1;
+        format!("{}{}", base, self.fresh)
+    }
+    fn feat(&mut self, f: &'static str) {
+        self.feats.insert(f);
+    }
+    fn small(&mut self) -> Sx {
+        int(self.rng.range(-9, 20))
+    }
+    fn pick_s(&mut self, v: &[String]) -> Option<String> {
+        if v.is_empty() {
+            None
+        } else {
+            Some(v[self.rng.below(v.len() as u64) as usize].clone())
+        }
+    }
+    /// using `name` may fail: the form that uses it is tainted too
+    fn touch(&mut self, sc: &Sc, name: &str) {
+        if sc.tainted.contains(name) {
+            self.taint = true;
+        }
+    }
+    fn q(x: Sx) -> Sx {
+        l(vec![a("quote"), x])
+    }
+
+    /// an expression that fails when evaluated, by class
+    fn failing(&mut self, sc: &Sc) -> Sx {
+        self.taint = true;
+        match self.rng.below(7) {
+            0 => {
+                self.feat("fail:unbound");
+                a("unbound-variable-zz")
+            }
+            1 => {
+                self.feat("fail:type");
+                l(vec![a("car"), self.small()])
+            }
+            2 => {
+                self.feat("fail:arity");
+                l(vec![l(vec![a("lambda"), l(vec![a("x")]), a("x")])])
+            }
+            3 => {
+                self.feat("fail:user");
+                l(vec![a("error"), a("\"boom\""), self.int_expr(sc, 0)])
+            }
+            4 => {
+                self.feat("fail:not-procedure");
+                l(vec![self.small(), self.small()])
+            }
+            5 => {
+                self.feat("fail:arity-variadic");
+                l(vec![l(vec![a("lambda"), a("(p q . r)"), a("p")]), self.small()])
+            }
+            _ => {
+                self.feat("fail:range");
+                l(vec![a("vector-ref"), l(vec![a("vector"), int(1), int(2)]), int(2)])
+            }
+        }
+    }
+
+    fn call_args(&mut self, sc: &Sc, n: usize, d: usize) -> Vec<Sx> {
+        (0..n).map(|_| self.int_expr(sc, d.min(1))).collect()
+    }
+
+    fn int_expr(&mut self, sc: &Sc, depth: usize) -> Sx {
+        if self.fail_per_mille > 0 && self.rng.below(1000) < self.fail_per_mille {
+            return self.failing(sc);
+        }
+        if depth == 0 {
+            if self.rng.chance(1, 2) {
+                if let Some(v) = self.pick_s(&sc.ints) {
+                    return a(&v);
+                }
+            }
+            return self.small();
+        }
+        let d = depth - 1;
+        match self.rng.below(40) {
+            0 | 1 => {
+                let op = *self.rng.pick(&["+", "-", "*"]);
+                let n = 1 + self.rng.below(3) as usize;
+                let mut v = vec![a(op)];
+                for _ in 0..n {
+                    v.push(self.int_expr(sc, d));
+                }
+                l(v)
+            }
+            2 => {
+                self.feat("if");
+                l(vec![a("if"), self.bool_expr(sc, d), self.int_expr(sc, d), self.int_expr(sc, d)])
+            }
+            3 => {
+                self.feat("let");
+                let x = self.fresh("x");
+                let y = self.fresh("y");
+                let mut sc2 = sc.clone();
+                sc2.ints.push(x.clone());
+                sc2.ints.push(y.clone());
+                sc2.mints.push(x.clone());
+                l(vec![
+                    a("let"),
+                    l(vec![l(vec![a(&x), self.int_expr(sc, d)]), l(vec![a(&y), self.int_expr(sc, d)])]),
+                    self.int_expr(&sc2, d),
+                ])
+            }
+            4 => {
+                self.feat("let*");
+                let x = self.fresh("x");
+                let y = self.fresh("y");
+                let mut sc1 = sc.clone();
+                sc1.ints.push(x.clone());
+                let mut sc2 = sc1.clone();
+                sc2.ints.push(y.clone());
+                l(vec![
+                    a("let*"),
+                    l(vec![l(vec![a(&x), self.int_expr(sc, d)]), l(vec![a(&y), self.int_expr(&sc1, d)])]),
+                    self.int_expr(&sc2, d),
+                ])
+            }
+            5 | 6 => {
+                if sc.procs.is_empty() {
+                    return self.int_expr(sc, d);
+                }
+                self.feat("call");
+                let p = sc.procs[self.rng.below(sc.procs.len() as u64) as usize].clone();
+                self.touch(sc, &p.name);
+                let extra = if p.variadic {
+                    self.feat("call-variadic");
+                    self.rng.below(3) as usize
+                } else {
+                    0
+                };
+                let mut v = vec![a(&p.name)];
+                v.extend(self.call_args(sc, p.fixed + extra, d));
+                l(v)
+            }
+            7 => self.apply_expr(sc, d),
+            8 => {
+                self.feat("lambda-app");
+                match self.rng.below(3) {
+                    0 => {
+                        let x = self.fresh("x");
+                        let mut sc2 = sc.clone();
+                        sc2.global = false;
+                        sc2.ints.push(x.clone());
+                        l(vec![l(vec![a("lambda"), l(vec![a(&x)]), self.int_expr(&sc2, d)]), self.int_expr(sc, d)])
+                    }
+                    1 => {
+                        self.feat("lambda-rest");
+                        let x = self.fresh("x");
+                        let r = self.fresh("r");
+                        let mut sc2 = sc.clone();
+                        sc2.global = false;
+                        sc2.ints.push(x.clone());
+                        sc2.lists.push(r.clone());
+                        let n = self.rng.below(3) as usize;
+                        let mut v = vec![l(vec![
+                            a("lambda"),
+                            a(&format!("({} . {})", x, r)),
+                            l(vec![a("+"), self.int_expr(&sc2, d), l(vec![a("length"), a(&r)])]),
+                        ])];
+                        v.extend(self.call_args(sc, 1 + n, d));
+                        l(v)
+                    }
+                    _ => {
+                        self.feat("lambda-rest-only");
+                        let r = self.fresh("r");
+                        let n = self.rng.below(4) as usize;
+                        let mut v = vec![l(vec![a("lambda"), a(&r), l(vec![a("apply"), a("+"), a(&r)])])];
+                        v.extend(self.call_args(sc, n, d));
+                        l(v)
+                    }
+                }
+            }
+            9 | 10 => self.cond_expr(sc, d),
+            11 => {
+                self.feat("case");
+                match self.rng.below(3) {
+                    0 => {
+                        let mut v = vec![a("case"), self.int_expr(sc, d)];
+                        v.push(l(vec![l(vec![int(0), int(1), int(2)]), self.int_expr(sc, d)]));
+                        if self.rng.chance(1, 3) {
+                            self.feat("case=>");
+                            let k = self.fresh("k");
+                            let mut sc2 = sc.clone();
+                            sc2.global = false;
+                            sc2.ints.push(k.clone());
+                            v.push(l(vec![
+                                l(vec![int(3), int(-1), int(5)]),
+                                a("=>"),
+                                l(vec![a("lambda"), l(vec![a(&k)]), self.int_expr(&sc2, d)]),
+                            ]));
+                        } else {
+                            v.push(l(vec![l(vec![int(3), int(-1)]), self.int_expr(sc, d), self.int_expr(sc, d)]));
+                        }
+                        if self.rng.chance(4, 5) {
+                            v.push(l(vec![a("else"), self.int_expr(sc, d)]));
+                            l(v)
+                        } else {
+                            // no else: the value is unspecified when nothing matches, keep it out of the result
+                            l(vec![a("begin"), l(v), self.int_expr(sc, d)])
+                        }
+                    }
+                    1 => {
+                        self.feat("case-symbol");
+                        let s = *self.rng.pick(&SYMS);
+                        l(vec![
+                            a("case"),
+                            Gen::q(a(s)),
+                            l(vec![l(vec![a("a"), a("b")]), self.int_expr(sc, d)]),
+                            l(vec![l(vec![a("c"), a("foo")]), self.int_expr(sc, d)]),
+                            l(vec![a("else"), self.int_expr(sc, d)]),
+                        ])
+                    }
+                    _ => {
+                        self.feat("case-char");
+                        let c = *self.rng.pick(&CHARS);
+                        l(vec![
+                            a("case"),
+                            a(c),
+                            l(vec![l(vec![a("#\\a"), a("#\\0")]), self.int_expr(sc, d)]),
+                            l(vec![a("else"), self.int_expr(sc, d)]),
+                        ])
+                    }
+                }
+            }
+            12 => {
+                self.feat("begin");
+                if let (true, Some(x)) = (self.rng.chance(1, 2), self.pick_s(&sc.mints)) {
+                    self.feat("set!");
+                    l(vec![a("begin"), l(vec![a("set!"), a(&x), self.int_expr(sc, d)]), self.int_expr(sc, d)])
+                } else {
+                    self.feat("display");
+                    l(vec![a("begin"), l(vec![a("display"), self.int_expr(sc, d)]), self.int_expr(sc, d)])
+                }
+            }
+            13 => {
+                self.feat("named-let");
+                let lp = self.fresh("loop");
+                let i = self.fresh("i");
+                let acc = self.fresh("acc");
+                let mut sc2 = sc.clone();
+                sc2.global = false;
+                sc2.ints.push(i.clone());
+                sc2.ints.push(acc.clone());
+                l(vec![
+                    a("let"),
+                    a(&lp),
+                    l(vec![l(vec![a(&i), int(self.rng.range(0, 6))]), l(vec![a(&acc), self.int_expr(sc, d.min(1))])]),
+                    l(vec![
+                        a("if"),
+                        l(vec![a("<"), a(&i), int(1)]),
+                        a(&acc),
+                        l(vec![a(&lp), l(vec![a("-"), a(&i), int(1)]), l(vec![a("+"), a(&acc), self.int_expr(&sc2, d.min(1))])]),
+                    ]),
+                ])
+            }
+            14 => {
+                self.feat("car/cdr");
+                match self.rng.below(3) {
+                    0 => l(vec![a("car"), l(vec![a("cons"), self.int_expr(sc, d), self.list_expr(sc, d)])]),
+                    1 => l(vec![a("cadr"), l(vec![a("cons"), self.int_expr(sc, d), l(vec![a("cons"), self.int_expr(sc, d), self.list_expr(sc, d)])])]),
+                    _ => l(vec![a("length"), self.list_expr(sc, d)]),
+                }
+            }
+            15 => {
+                self.feat("vector");
+                let n = 1 + self.rng.below(3) as usize;
+                let mut v = vec![a("vector")];
+                for _ in 0..n {
+                    v.push(self.int_expr(sc, d.min(1)));
+                }
+                let k = self.rng.below(n as u64) as i64;
+                if self.rng.chance(1, 2) {
+                    l(vec![a("vector-ref"), l(v), int(k)])
+                } else {
+                    self.feat("vector-set!");
+                    let x = self.fresh("v");
+                    l(vec![
+                        a("let"),
+                        l(vec![l(vec![a(&x), l(v)])]),
+                        l(vec![a("vector-set!"), a(&x), int(k), self.int_expr(sc, d)]),
+                        l(vec![a("+"), l(vec![a("vector-ref"), a(&x), int(k)]), l(vec![a("vector-length"), a(&x)])]),
+                    ])
+                }
+            }
+            16 | 17 => self.eval_expr(sc, d),
+            18 => {
+                self.feat("delay/force");
+                if self.rng.chance(1, 2) {
+                    l(vec![a("force"), l(vec![a("delay"), self.int_expr(sc, d)])])
+                } else {
+                    // memoisation: the body runs once
+                    self.feat("force-twice");
+                    let p = self.fresh("p");
+                    let c = self.fresh("c");
+                    let mut sc2 = sc.clone();
+                    sc2.ints.push(c.clone());
+                    l(vec![
+                        a("let*"),
+                        l(vec![
+                            l(vec![a(&c), self.small()]),
+                            l(vec![a(&p), l(vec![a("delay"), l(vec![a("begin"), l(vec![a("set!"), a(&c), l(vec![a("+"), a(&c), int(1)])]), self.int_expr(&sc2, d)])])]),
+                        ]),
+                        l(vec![a("+"), l(vec![a("force"), a(&p)]), l(vec![a("force"), a(&p)]), a(&c)]),
+                    ])
+                }
+            }
+            19 => {
+                if let Some(p) = self.pick_s(&sc.promises) {
+                    self.touch(sc, &p);
+                    self.feat("force-global-promise");
+                    l(vec![a("force"), a(&p)])
+                } else {
+                    self.int_expr(sc, d)
+                }
+            }
+            20 => {
+                self.feat("and/or-value");
+                l(vec![a("or"), l(vec![a("and"), self.bool_expr(sc, d), self.int_expr(sc, d)]), self.int_expr(sc, d)])
+            }
+            21 => {
+                self.feat("letrec");
+                if self.rng.chance(1, 2) {
+                    let f = self.fresh("f");
+                    let n = self.fresh("n");
+                    l(vec![
+                        a("letrec"),
+                        l(vec![l(vec![
+                            a(&f),
+                            l(vec![
+                                a("lambda"),
+                                l(vec![a(&n)]),
+                                l(vec![
+                                    a("if"),
+                                    l(vec![a("<"), a(&n), int(1)]),
+                                    self.int_expr(sc, d.min(1)),
+                                    l(vec![a("+"), int(1), l(vec![a(&f), l(vec![a("-"), a(&n), int(1)])])]),
+                                ]),
+                            ]),
+                        ])]),
+                        l(vec![a(&f), int(self.rng.range(0, 5))]),
+                    ])
+                } else {
+                    self.feat("letrec-mutual");
+                    let e = self.fresh("ev");
+                    let o = self.fresh("od");
+                    let n = self.fresh("n");
+                    l(vec![
+                        a("letrec"),
+                        l(vec![
+                            l(vec![a(&e), l(vec![a("lambda"), l(vec![a(&n)]), l(vec![a("if"), l(vec![a("="), a(&n), int(0)]), self.int_expr(sc, 0), l(vec![a(&o), l(vec![a("-"), a(&n), int(1)])])])])]),
+                            l(vec![a(&o), l(vec![a("lambda"), l(vec![a(&n)]), l(vec![a("if"), l(vec![a("="), a(&n), int(0)]), self.int_expr(sc, 0), l(vec![a(&e), l(vec![a("-"), a(&n), int(1)])])])])]),
+                        ]),
+                        l(vec![a(&e), int(self.rng.range(0, 6))]),
+                    ])
+                }
+            }
+            22 => {
+                self.feat("map");
+                let x = self.fresh("x");
+                let mut sc2 = sc.clone();
+                sc2.global = false;
+                sc2.ints.push(x.clone());
+                if self.rng.chance(2, 3) {
+                    l(vec![a("apply"), a("+"), l(vec![a("map"), l(vec![a("lambda"), l(vec![a(&x)]), self.int_expr(&sc2, d.min(1))]), self.list_expr(sc, d)])])
+                } else {
+                    self.feat("map-2-lists");
+                    l(vec![a("apply"), a("+"), l(vec![a("map"), a(*self.rng.pick(&["+", "*", "-"])), self.list_expr(sc, d), self.list_expr(sc, d)])])
+                }
+            }
+            23 => {
+                self.feat("when/unless");
+                let w = if self.rng.chance(1, 2) { "when" } else { "unless" };
+                let eff = if let Some(x) = self.pick_s(&sc.mints) {
+                    l(vec![a("set!"), a(&x), self.int_expr(sc, d)])
+                } else {
+                    l(vec![a("display"), self.int_expr(sc, d)])
+                };
+                l(vec![a("begin"), l(vec![a(w), self.bool_expr(sc, d), eff.clone(), eff]), self.int_expr(sc, d)])
+            }
+            24 => {
+                self.feat("internal-define");
+                let x = self.fresh("x");
+                let y = self.fresh("d");
+                let h = self.fresh("h");
+                let z = self.fresh("z");
+                let mut sc2 = sc.clone();
+                sc2.global = false;
+                sc2.ints.push(x.clone());
+                let e1 = self.int_expr(&sc2, d.min(1));
+                sc2.ints.push(y.clone());
+                let mut sc3 = sc2.clone();
+                sc3.ints.push(z.clone());
+                let hb = self.int_expr(&sc3, d.min(1));
+                sc2.procs.push(Proc { name: h.clone(), fixed: 1, variadic: false });
+                l(vec![
+                    l(vec![
+                        a("lambda"),
+                        l(vec![a(&x)]),
+                        l(vec![a("define"), a(&y), e1]),
+                        l(vec![a("define"), l(vec![a(&h), a(&z)]), hb]),
+                        self.int_expr(&sc2, d),
+                    ]),
+                    self.int_expr(sc, d),
+                ])
+            }
+            25 => {
+                self.feat("higher-order");
+                match self.rng.below(3) {
+                    0 => {
+                        // ((lambda (f x) (f (f x))) (lambda (y) e) e)
+                        let f = self.fresh("f");
+                        let x = self.fresh("x");
+                        let y = self.fresh("y");
+                        let mut sc2 = sc.clone();
+                        sc2.global = false;
+                        sc2.ints.push(y.clone());
+                        l(vec![
+                            l(vec![a("lambda"), l(vec![a(&f), a(&x)]), l(vec![a(&f), l(vec![a(&f), a(&x)])])]),
+                            l(vec![a("lambda"), l(vec![a(&y)]), self.int_expr(&sc2, d.min(1))]),
+                            self.int_expr(sc, d),
+                        ])
+                    }
+                    1 => {
+                        // a primitive passed as a value
+                        let f = self.fresh("f");
+                        l(vec![
+                            l(vec![a("lambda"), l(vec![a(&f)]), l(vec![a(&f), self.int_expr(sc, d), self.int_expr(sc, d)])]),
+                            a(*self.rng.pick(&["+", "*", "-", "max", "min"])),
+                        ])
+                    }
+                    _ => {
+                        self.feat("for-each");
+                        let s = self.fresh("s");
+                        let x = self.fresh("x");
+                        l(vec![
+                            a("let"),
+                            l(vec![l(vec![a(&s), self.small()])]),
+                            l(vec![a("for-each"), l(vec![a("lambda"), l(vec![a(&x)]), l(vec![a("set!"), a(&s), l(vec![a("+"), l(vec![a("*"), a(&s), int(2)]), a(&x)])])]), self.list_expr(sc, d)]),
+                            a(&s),
+                        ])
+                    }
+                }
+            }
+            26 | 27 => {
+                // a closure returned by a maker, called now
+                let ms: Vec<Maker> = sc.makers.iter().filter(|m| !m.data).cloned().collect();
+                if ms.is_empty() {
+                    return self.int_expr(sc, d);
+                }
+                self.feat("returned-closure-call");
+                let m = ms[self.rng.below(ms.len() as u64) as usize].clone();
+                self.touch(sc, &m.name);
+                let mut mk = vec![a(&m.name)];
+                mk.extend(self.call_args(sc, m.outer, d));
+                let mut v = vec![l(mk)];
+                v.extend(self.call_args(sc, m.inner, d));
+                l(v)
+            }
+            28 => {
+                self.feat("set!-local");
+                let x = self.fresh("x");
+                let mut sc2 = sc.clone();
+                sc2.ints.push(x.clone());
+                sc2.mints.push(x.clone());
+                l(vec![
+                    a("let"),
+                    l(vec![l(vec![a(&x), self.int_expr(sc, d)])]),
+                    l(vec![a("set!"), a(&x), self.int_expr(&sc2, d)]),
+                    self.int_expr(&sc2, d),
+                ])
+            }
+            29 => {
+                self.feat("closure-shared-state");
+                // two closures over one variable
+                let n = self.fresh("n");
+                let inc = self.fresh("inc");
+                let get = self.fresh("get");
+                l(vec![
+                    a("let*"),
+                    l(vec![
+                        l(vec![a(&n), self.int_expr(sc, d.min(1))]),
+                        l(vec![a(&inc), l(vec![a("lambda"), l(vec![a("d")]), l(vec![a("set!"), a(&n), l(vec![a("+"), a(&n), a("d")])])])]),
+                        l(vec![a(&get), l(vec![a("lambda"), l(vec![]), a(&n)])]),
+                    ]),
+                    l(vec![a(&inc), self.int_expr(sc, d.min(1))]),
+                    l(vec![a(&inc), int(1)]),
+                    l(vec![a(&get)]),
+                ])
+            }
+            30 => {
+                self.feat("string/char");
+                if self.rng.chance(1, 2) {
+                    l(vec![a("string-length"), a(*self.rng.pick(&STRS))])
+                } else {
+                    l(vec![a("char->integer"), a(*self.rng.pick(&CHARS))])
+                }
+            }
+            31 => {
+                if let Some((v, n)) = (!sc.vecs.is_empty()).then(|| sc.vecs[self.rng.below(sc.vecs.len() as u64) as usize].clone()) {
+                    self.feat("global-vector");
+                    let k = self.rng.below(n as u64) as i64;
+                    if self.rng.chance(1, 2) {
+                        l(vec![a("vector-ref"), a(&v), int(k)])
+                    } else {
+                        l(vec![a("begin"), l(vec![a("vector-set!"), a(&v), int(k), self.int_expr(sc, d)]), l(vec![a("vector-ref"), a(&v), int(k)])])
+                    }
+                } else {
+                    self.int_expr(sc, d)
+                }
+            }
+            32 => {
+                self.feat("quasiquote");
+                // a value taken out of a template
+                l(vec![a("cadr"), l(vec![a("quasiquote"), l(vec![a("k"), l(vec![a("unquote"), self.int_expr(sc, d)]), a("z")])])])
+            }
+            33 => {
+                self.feat("abs/min/max");
+                match self.rng.below(3) {
+                    0 => l(vec![a("abs"), self.int_expr(sc, d)]),
+                    1 => l(vec![a("min"), self.int_expr(sc, d), self.int_expr(sc, d)]),
+                    _ => l(vec![a("max"), self.int_expr(sc, d), self.int_expr(sc, d)]),
+                }
+            }
+            34 => {
+                self.feat("if-one-armed");
+                l(vec![a("begin"), l(vec![a("if"), self.bool_expr(sc, d), l(vec![a("display"), self.int_expr(sc, d)])]), self.int_expr(sc, d)])
+            }
+            _ => {
+                if depth >= 2 {
+                    self.int_expr(sc, d)
+                } else if let Some(v) = self.pick_s(&sc.ints) {
+                    a(&v)
+                } else {
+                    self.small()
+                }
+            }
+        }
+    }
+
+    fn cond_expr(&mut self, sc: &Sc, d: usize) -> Sx {
+        self.feat("cond");
+        let mut v = vec![a("cond")];
+        for _ in 0..(1 + self.rng.below(3)) {
+            match self.rng.below(6) {
+                0 => {
+                    // a variadic procedure reached through apply inside a cond arm
+                    let arm = self.apply_expr(sc, d);
+                    v.push(l(vec![self.bool_expr(sc, d), arm]));
+                }
+                1 => {
+                    self.feat("cond=>");
+                    let k = self.fresh("k");
+                    let mut sc2 = sc.clone();
+                    sc2.global = false;
+                    sc2.ints.push(k.clone());
+                    v.push(l(vec![
+                        l(vec![a("and"), self.bool_expr(sc, d), self.int_expr(sc, d)]),
+                        a("=>"),
+                        l(vec![a("lambda"), l(vec![a(&k)]), self.int_expr(&sc2, d)]),
+                    ]));
+                }
+                2 => {
+                    self.feat("cond-test-only");
+                    v.push(l(vec![l(vec![a("and"), self.bool_expr(sc, d), self.int_expr(sc, d)])]));
+                }
+                3 => {
+                    v.push(l(vec![self.bool_expr(sc, d), l(vec![a("display"), self.int_expr(sc, 0)]), self.int_expr(sc, d)]));
+                }
+                _ => v.push(l(vec![self.bool_expr(sc, d), self.int_expr(sc, d)])),
+            }
+        }
+        v.push(l(vec![a("else"), self.int_expr(sc, d)]));
+        l(v)
+    }
+
+    fn apply_expr(&mut self, sc: &Sc, d: usize) -> Sx {
+        if sc.procs.is_empty() {
+            self.feat("apply-prim");
+            return l(vec![a("apply"), a(*self.rng.pick(&["+", "*", "max"])), self.int_expr(sc, d), l(vec![a("list"), self.int_expr(sc, d), self.int_expr(sc, 0)])]);
+        }
+        self.feat("apply");
+        let vs: Vec<Proc> = sc.procs.iter().filter(|p| p.variadic).cloned().collect();
+        let p = if !vs.is_empty() && self.rng.chance(2, 3) {
+            self.feat("apply-variadic");
+            vs[self.rng.below(vs.len() as u64) as usize].clone()
+        } else {
+            sc.procs[self.rng.below(sc.procs.len() as u64) as usize].clone()
+        };
+        self.touch(sc, &p.name);
+        let extra = if p.variadic { self.rng.below(3) as usize } else { 0 };
+        let n = p.fixed + extra;
+        let direct = if n > 0 { self.rng.below(n as u64 + 1) as usize } else { 0 };
+        let mut v = vec![a("apply"), a(&p.name)];
+        for _ in 0..direct {
+            v.push(self.int_expr(sc, 0));
+        }
+        if self.rng.chance(1, 3) {
+            let mut items = vec![];
+            for _ in direct..n {
+                items.push(self.small());
+            }
+            v.push(Gen::q(l(items)));
+        } else {
+            let mut lst = vec![a("list")];
+            for _ in direct..n {
+                lst.push(self.int_expr(sc, d.min(1)));
+            }
+            v.push(l(lst));
+        }
+        l(v)
+    }
+
+    fn eval_expr(&mut self, sc: &Sc, d: usize) -> Sx {
+        self.feat("eval");
+        match self.rng.below(5) {
+            0 => l(vec![a("eval"), l(vec![a("list"), Gen::q(a(*self.rng.pick(&["+", "*", "-"]))), self.int_expr(sc, d.min(1)), self.int_expr(sc, d.min(1))])]),
+            1 => {
+                self.feat("eval-quasiquote");
+                l(vec![
+                    a("eval"),
+                    l(vec![
+                        a("quasiquote"),
+                        l(vec![a("let"), l(vec![l(vec![a("q"), l(vec![a("unquote"), self.int_expr(sc, d.min(1))])])]), l(vec![a("*"), a("q"), self.small()])]),
+                    ]),
+                ])
+            }
+            2 => l(vec![a("eval"), l(vec![a("list"), Gen::q(a("if")), self.bool_expr(sc, d.min(1)), self.int_expr(sc, 0), self.int_expr(sc, 0)])]),
+            3 => {
+                // a global procedure called from an eval'd form (only where the global is known to be bound)
+                let ps: Vec<Proc> = sc.procs.iter().filter(|p| !p.variadic && p.name.starts_with('f')).cloned().collect();
+                if ps.is_empty() {
+                    return l(vec![a("eval"), Gen::q(l(vec![a("+"), self.small(), self.small()]))]);
+                }
+                self.feat("eval-calls-global");
+                let p = ps[self.rng.below(ps.len() as u64) as usize].clone();
+                self.touch(sc, &p.name);
+                let mut v = vec![a("list"), Gen::q(a(&p.name))];
+                for _ in 0..p.fixed {
+                    v.push(self.int_expr(sc, 0));
+                }
+                l(vec![a("eval"), l(v)])
+            }
+            _ => {
+                self.feat("eval-lambda");
+                l(vec![l(vec![a("eval"), Gen::q(l(vec![a("lambda"), l(vec![a("q")]), l(vec![a("+"), a("q"), self.small()])]))]), self.int_expr(sc, d)])
+            }
+        }
+    }
+
+    fn bool_expr(&mut self, sc: &Sc, depth: usize) -> Sx {
+        if depth == 0 {
+            if self.rng.chance(1, 3) {
+                if let Some(v) = self.pick_s(&sc.bools) {
+                    return a(&v);
+                }
+            }
+            return a(if self.rng.chance(1, 2) { "#t" } else { "#f" });
+        }
+        let d = depth - 1;
+        match self.rng.below(12) {
+            0 | 1 => {
+                let op = *self.rng.pick(&["<", "=", ">", "<=", ">="]);
+                l(vec![a(op), self.int_expr(sc, d), self.int_expr(sc, d)])
+            }
+            2 => l(vec![a("not"), self.bool_expr(sc, d)]),
+            3 => {
+                self.feat("and");
+                let mut v = vec![a("and")];
+                for _ in 0..self.rng.below(4) {
+                    v.push(self.bool_expr(sc, d));
+                }
+                l(v)
+            }
+            4 => {
+                self.feat("or");
+                let mut v = vec![a("or")];
+                for _ in 0..self.rng.below(4) {
+                    v.push(self.bool_expr(sc, d));
+                }
+                l(v)
+            }
+            5 => l(vec![a(*self.rng.pick(&["null?", "pair?", "list?"])), self.list_expr(sc, d)]),
+            6 => l(vec![a("eq?"), Gen::q(a(*self.rng.pick(&SYMS))), Gen::q(a(*self.rng.pick(&SYMS)))]),
+            7 => l(vec![a("if"), self.bool_expr(sc, d), self.bool_expr(sc, d), self.bool_expr(sc, d)]),
+            8 => {
+                self.feat("equal?");
+                l(vec![a("equal?"), self.list_expr(sc, d), self.list_expr(sc, d)])
+            }
+            9 => l(vec![a("eqv?"), self.int_expr(sc, d), self.int_expr(sc, d)]),
+            10 => {
+                self.feat("predicates");
+                let p = *self.rng.pick(&["symbol?", "string?", "char?", "integer?", "boolean?", "procedure?", "vector?", "zero?"]);
+                if p == "zero?" {
+                    l(vec![a(p), self.int_expr(sc, d)])
+                } else {
+                    let x = match self.rng.below(6) {
+                        0 => Gen::q(a(*self.rng.pick(&SYMS))),
+                        1 => a(*self.rng.pick(&STRS)),
+                        2 => a(*self.rng.pick(&CHARS)),
+                        3 => self.int_expr(sc, d),
+                        4 => a("car"),
+                        _ => l(vec![a("vector"), self.small()]),
+                    };
+                    l(vec![a(p), x])
+                }
+            }
+            _ => {
+                self.feat("memv");
+                l(vec![a("if"), l(vec![a("memv"), self.int_expr(sc, d), self.list_expr(sc, d)]), a("#t"), a("#f")])
+            }
+        }
+    }
+
+    fn list_expr(&mut self, sc: &Sc, depth: usize) -> Sx {
+        if depth == 0 {
+            if self.rng.chance(1, 2) {
+                if let Some(v) = self.pick_s(&sc.lists) {
+                    return a(&v);
+                }
+            }
+            let n = self.rng.below(4);
+            let mut v = vec![];
+            for _ in 0..n {
+                v.push(self.small());
+            }
+            return Gen::q(l(v));
+        }
+        let d = depth - 1;
+        match self.rng.below(12) {
+            0 => l(vec![a("cons"), self.int_expr(sc, d), self.list_expr(sc, d)]),
+            1 => {
+                let mut v = vec![a("list")];
+                for _ in 0..self.rng.below(4) {
+                    v.push(self.int_expr(sc, d));
+                }
+                l(v)
+            }
+            2 => l(vec![a("append"), self.list_expr(sc, d), self.list_expr(sc, d)]),
+            3 => l(vec![a("reverse"), self.list_expr(sc, d)]),
+            4 | 5 => {
+                self.feat("quasiquote");
+                let mut v = vec![];
+                for _ in 0..(1 + self.rng.below(3)) {
+                    if self.rng.chance(1, 2) {
+                        v.push(l(vec![a("unquote"), self.int_expr(sc, d)]));
+                    } else {
+                        v.push(self.small());
+                    }
+                }
+                l(vec![a("quasiquote"), l(v)])
+            }
+            6 => {
+                self.feat("map");
+                let x = self.fresh("x");
+                let mut sc2 = sc.clone();
+                sc2.global = false;
+                sc2.ints.push(x.clone());
+                l(vec![a("map"), l(vec![a("lambda"), l(vec![a(&x)]), self.int_expr(&sc2, d.min(1))]), self.list_expr(sc, d)])
+            }
+            7 => {
+                self.feat("vector->list");
+                let mut v = vec![a("vector")];
+                for _ in 0..self.rng.below(3) {
+                    v.push(self.int_expr(sc, d.min(1)));
+                }
+                l(vec![a("vector->list"), l(v)])
+            }
+            8 => {
+                self.feat("named-let");
+                let lp = self.fresh("loop");
+                let i = self.fresh("i");
+                let acc = self.fresh("acc");
+                let mut sc2 = sc.clone();
+                sc2.global = false;
+                sc2.ints.push(i.clone());
+                l(vec![
+                    a("let"),
+                    a(&lp),
+                    l(vec![l(vec![a(&i), int(self.rng.range(0, 5))]), l(vec![a(&acc), Gen::q(l(vec![]))])]),
+                    l(vec![
+                        a("if"),
+                        l(vec![a("<"), a(&i), int(1)]),
+                        a(&acc),
+                        l(vec![a(&lp), l(vec![a("-"), a(&i), int(1)]), l(vec![a("cons"), self.int_expr(&sc2, d.min(1)), a(&acc)])]),
+                    ]),
+                ])
+            }
+            9 => {
+                self.feat("lambda-rest-only");
+                let r = self.fresh("r");
+                let n = self.rng.below(4) as usize;
+                let mut v = vec![l(vec![a("lambda"), a(&r), a(&r)])];
+                v.extend(self.call_args(sc, n, d));
+                l(v)
+            }
+            10 => {
+                self.feat("list-tail");
+                l(vec![a("list-tail"), l(vec![a("cons"), self.int_expr(sc, d), self.list_expr(sc, d)]), int(1)])
+            }
+            _ => l(vec![a("cdr"), l(vec![a("cons"), self.int_expr(sc, d), self.list_expr(sc, d)])]),
+        }
+    }
+
+    /// quasiquote template element
+    fn template(&mut self, sc: &Sc, depth: usize, qdepth: usize) -> Sx {
+        let d = depth.saturating_sub(1);
+        match self.rng.below(if depth == 0 { 6 } else { 11 }) {
+            0 => a(*self.rng.pick(&SYMS)),
+            1 => self.small(),
+            2 => a(*self.rng.pick(&STRS)),
+            3 => a(*self.rng.pick(&CHARS)),
+            4 => a(if self.rng.chance(1, 2) { "#t" } else { "()" }),
+            5 | 6 => {
+                // an unquote that is evaluated only when it brings the nesting back to level 0
+                if qdepth == 0 {
+                    let e = match self.rng.below(4) {
+                        0 => self.list_expr(sc, d),
+                        1 => self.bool_expr(sc, d),
+                        _ => self.int_expr(sc, d),
+                    };
+                    l(vec![a("unquote"), e])
+                } else {
+                    self.feat("quasiquote-nested");
+                    l(vec![a("unquote"), self.template(sc, d, qdepth - 1)])
+                }
+            }
+            7 => {
+                let mut v = vec![];
+                for _ in 0..(1 + self.rng.below(3)) {
+                    v.push(self.template(sc, d, qdepth));
+                }
+                l(v)
+            }
+            8 => {
+                self.feat("quasiquote-vector");
+                let mut s = String::from("#(");
+                for i in 0..self.rng.below(4) {
+                    if i > 0 {
+                        s.push(' ');
+                    }
+                    s.push_str(&self.template(sc, d, qdepth).render());
+                }
+                s.push(')');
+                a(&s)
+            }
+            9 => {
+                self.feat("quasiquote-nested");
+                l(vec![a("quasiquote"), self.template(sc, d, qdepth + 1)])
+            }
+            _ => {
+                // data that looks like code: must stay data
+                self.feat("quasiquote-macro-shaped-data");
+                match self.rng.below(4) {
+                    0 => l(vec![a("when"), self.small(), self.small()]),
+                    1 => l(vec![a("let"), l(vec![l(vec![a("a"), self.small()])]), a("a")]),
+                    2 => l(vec![a("or"), self.small(), l(vec![a("and"), a("b")])]),
+                    _ => l(vec![a("quote"), a(*self.rng.pick(&SYMS))]),
+                }
+            }
+        }
+    }
+
+    fn quasi(&mut self, sc: &Sc, depth: usize) -> Sx {
+        self.feat("quasiquote");
+        let mut v = vec![];
+        for _ in 0..(1 + self.rng.below(4)) {
+            v.push(self.template(sc, depth, 0));
+        }
+        l(vec![a("quasiquote"), l(v)])
+    }
+
+    /// any datum
+    fn data_expr(&mut self, sc: &Sc, depth: usize) -> Sx {
+        let d = depth.saturating_sub(1);
+        match self.rng.below(12) {
+            0 | 1 | 2 => self.quasi(sc, depth),
+            3 => {
+                self.feat("data:vector");
+                l(vec![a("vector"), self.int_expr(sc, d), Gen::q(a(*self.rng.pick(&SYMS))), a(*self.rng.pick(&STRS)), a(*self.rng.pick(&CHARS))])
+            }
+            4 => {
+                self.feat("data:improper");
+                l(vec![a("cons"), self.int_expr(sc, d), self.int_expr(sc, d)])
+            }
+            5 => {
+                self.feat("data:quoted-literal");
+                a(*self.rng.pick(&["'(a (b . c) #(1 \"s\" #\\x) ())", "'#(1 (2 3) a)", "''a", "'(quote a b)", "'(1 . 2)", "#(1 #t #\\a)", "\"str\"", "#\\a", "'sym"]))
+            }
+            6 => {
+                self.feat("data:map-cons");
+                l(vec![a("map"), l(vec![a("lambda"), l(vec![a("e")]), l(vec![a("cons"), a("e"), Gen::q(a("k"))])]), self.list_expr(sc, d)])
+            }
+            7 => {
+                self.feat("data:procedure");
+                match self.rng.below(3) {
+                    0 => a("car"),
+                    1 => l(vec![a("lambda"), l(vec![a("x")]), a("x")]),
+                    _ => l(vec![a("list"), a("+"), self.small()]),
+                }
+            }
+            8 => {
+                self.feat("data:promise");
+                l(vec![a("delay"), self.int_expr(sc, d)])
+            }
+            9 | 10 => {
+                let ms: Vec<Maker> = sc.makers.iter().filter(|m| m.data).cloned().collect();
+                if ms.is_empty() {
+                    return self.quasi(sc, depth);
+                }
+                self.feat("quasiquote-in-returned-closure-call");
+                let m = ms[self.rng.below(ms.len() as u64) as usize].clone();
+                self.touch(sc, &m.name);
+                let mut mk = vec![a(&m.name)];
+                mk.extend(self.call_args(sc, m.outer, d));
+                let mut v = vec![l(mk)];
+                v.extend(self.call_args(sc, m.inner, d));
+                l(v)
+            }
+            _ => {
+                self.feat("data:assv");
+                l(vec![a("assv"), self.int_expr(sc, d), Gen::q(a("((1 . a) (2 . b) (3 c d) (0 . #t))"))])
+            }
+        }
+    }
+
+    fn params(&mut self, n: usize, sc: &mut Sc, base: &str) -> Vec<Sx> {
+        let mut v = vec![];
+        for _ in 0..n {
+            let p = self.fresh(base);
+            sc.ints.push(p.clone());
+            v.push(a(&p));
+        }
+        v
+    }
+
+    /// a top-level definition / redefinition / assignment; extends the scope
+    fn definition(&mut self, sc: &mut Sc, depth: usize) -> Sx {
+        self.taint = false;
+        match self.rng.below(16) {
+            0 | 1 => {
+                let x = self.fresh("g");
+                let e = self.int_expr(sc, depth);
+                if !self.taint {
+                    sc.ints.push(x.clone());
+                    sc.mints.push(x.clone());
+                }
+                l(vec![a("define"), a(&x), e])
+            }
+            2 => {
+                let x = self.fresh("gl");
+                let e = self.list_expr(sc, depth);
+                if !self.taint {
+                    sc.lists.push(x.clone());
+                }
+                l(vec![a("define"), a(&x), e])
+            }
+            3 | 4 => {
+                self.feat("define-proc");
+                let f = self.fresh("f");
+                let n = self.rng.below(4) as usize;
+                let mut sc2 = sc.clone();
+                sc2.global = false;
+                let mut ps = vec![a(&f)];
+                ps.extend(self.params(n, &mut sc2, "p"));
+                let body = self.int_expr(&sc2, depth);
+                if self.taint {
+                    sc.tainted.insert(f.clone());
+                }
+                sc.procs.push(Proc { name: f, fixed: n, variadic: false });
+                if self.rng.chance(1, 4) {
+                    self.feat("define-lambda");
+                    let name = ps.remove(0);
+                    l(vec![a("define"), name, l(vec![a("lambda"), l(ps), body])])
+                } else {
+                    l(vec![a("define"), l(ps), body])
+                }
+            }
+            5 | 6 => {
+                self.feat("define-variadic");
+                let f = self.fresh("v");
+                let n = self.rng.below(3) as usize;
+                let mut sc2 = sc.clone();
+                sc2.global = false;
+                let ps: Vec<String> = self.params(n, &mut sc2, "p").iter().map(|s| s.render()).collect();
+                let r = self.fresh("r");
+                sc2.lists.push(r.clone());
+                let body = match self.rng.below(3) {
+                    0 => l(vec![a("+"), self.int_expr(&sc2, depth), l(vec![a("length"), a(&r)])]),
+                    1 => l(vec![a("+"), self.int_expr(&sc2, depth), l(vec![a("apply"), a("+"), a(&r)])]),
+                    _ => l(vec![a("if"), l(vec![a("null?"), a(&r)]), self.int_expr(&sc2, depth), l(vec![a("+"), l(vec![a("car"), a(&r)]), self.int_expr(&sc2, depth)])]),
+                };
+                if self.taint {
+                    sc.tainted.insert(f.clone());
+                }
+                sc.procs.push(Proc { name: f.clone(), fixed: n, variadic: true });
+                let head = if ps.is_empty() { format!("({} . {})", f, r) } else { format!("({} {} . {})", f, ps.join(" "), r) };
+                l(vec![a("define"), a(&head), body])
+            }
+            7 => {
+                self.feat("closure-counter");
+                let c = self.fresh("c");
+                let n = self.fresh("n");
+                let d = self.fresh("d");
+                let init = self.int_expr(sc, depth.min(1));
+                if !self.taint {
+                    sc.procs.push(Proc { name: c.clone(), fixed: 1, variadic: false });
+                }
+                l(vec![
+                    a("define"),
+                    a(&c),
+                    l(vec![a("let"), l(vec![l(vec![a(&n), init])]), l(vec![a("lambda"), l(vec![a(&d)]), l(vec![a("set!"), a(&n), l(vec![a("+"), a(&n), a(&d)])]), a(&n)])]),
+                ])
+            }
+            8 => {
+                if let Some(x) = self.pick_s(&sc.mints.clone()) {
+                    self.feat("set!-global");
+                    l(vec![a("set!"), a(&x), self.int_expr(sc, depth)])
+                } else {
+                    self.definition(sc, depth)
+                }
+            }
+            9 => {
+                // redefine an existing procedure with the same signature: earlier-compiled callers see it
+                let ps: Vec<Proc> = sc.procs.iter().filter(|p| !p.variadic && p.name.starts_with('f')).cloned().collect();
+                if ps.is_empty() {
+                    return self.definition(sc, depth);
+                }
+                self.feat("redefine-proc");
+                let p = ps[self.rng.below(ps.len() as u64) as usize].clone();
+                let mut sc2 = sc.clone();
+                sc2.global = false;
+                // the new body calls no user procedure: anything in scope may (indirectly) call `p`
+                sc2.procs.clear();
+                sc2.makers.clear();
+                sc2.promises.clear();
+                let mut params = vec![a(&p.name)];
+                params.extend(self.params(p.fixed, &mut sc2, "q"));
+                let body = self.int_expr(&sc2, depth);
+                if self.taint {
+                    sc.tainted.insert(p.name.clone());
+                }
+                l(vec![a("define"), l(params), body])
+            }
+            10 => {
+                // redefine a global variable
+                if let Some(x) = self.pick_s(&sc.mints.clone()) {
+                    self.feat("redefine-var");
+                    let save = self.fail_per_mille;
+                    self.fail_per_mille = 0;
+                    let e = self.int_expr(sc, depth);
+                    self.fail_per_mille = save;
+                    l(vec![a("define"), a(&x), e])
+                } else {
+                    self.definition(sc, depth)
+                }
+            }
+            11 | 12 => {
+                // a procedure returning a closure
+                let data = self.rng.chance(1, 2);
+                let m = self.fresh("mk");
+                let outer = 1 + self.rng.below(2) as usize;
+                let inner = self.rng.below(3) as usize;
+                let mut sc2 = sc.clone();
+                sc2.global = false;
+                let mut head = vec![a(&m)];
+                head.extend(self.params(outer, &mut sc2, "o"));
+                let inner_ps = self.params(inner, &mut sc2, "i");
+                let body = if data {
+                    self.feat("quasiquote-in-returned-closure");
+                    self.quasi(&sc2, depth.min(2))
+                } else {
+                    self.feat("define-maker");
+                    self.int_expr(&sc2, depth)
+                };
+                if self.taint {
+                    sc.tainted.insert(m.clone());
+                }
+                sc.makers.push(Maker { name: m, outer, inner, data });
+                l(vec![a("define"), l(head), l(vec![a("lambda"), l(inner_ps), body])])
+            }
+            13 => {
+                // a closure obtained from a maker, kept in a global and called in later forms
+                let ms: Vec<Maker> = sc.makers.iter().filter(|m| !m.data).cloned().collect();
+                if ms.is_empty() {
+                    return self.definition(sc, depth);
+                }
+                self.feat("closure-from-maker-kept");
+                let m = ms[self.rng.below(ms.len() as u64) as usize].clone();
+                let h = self.fresh("h");
+                self.touch(sc, &m.name);
+                let mut mk = vec![a(&m.name)];
+                mk.extend(self.call_args(sc, m.outer, depth));
+                if !self.taint {
+                    sc.procs.push(Proc { name: h.clone(), fixed: m.inner, variadic: false });
+                }
+                l(vec![a("define"), a(&h), l(mk)])
+            }
+            14 => {
+                self.feat("define-promise");
+                let p = self.fresh("pr");
+                let e = if let Some(x) = self.pick_s(&sc.mints.clone()) {
+                    l(vec![a("begin"), l(vec![a("set!"), a(&x), l(vec![a("+"), a(&x), int(1)])]), self.int_expr(sc, depth)])
+                } else {
+                    self.int_expr(sc, depth)
+                };
+                if self.taint {
+                    sc.tainted.insert(p.clone());
+                }
+                sc.promises.push(p.clone());
+                l(vec![a("define"), a(&p), l(vec![a("delay"), e])])
+            }
+            _ => {
+                self.feat("define-vector");
+                let v = self.fresh("gv");
+                let n = 1 + self.rng.below(3) as usize;
+                let mut items = vec![a("vector")];
+                for _ in 0..n {
+                    items.push(self.int_expr(sc, depth.min(1)));
+                }
+                if !self.taint {
+                    sc.vecs.push((v.clone(), n));
+                }
+                l(vec![a("define"), a(&v), l(items)])
+            }
+        }
+    }
+
+    fn session(&mut self, n: usize, depth: usize) -> Vec<String> {
+        let mut sc = Sc { global: true, ..Default::default() };
+        let mut forms = vec![];
+        while forms.len() < n {
+            let f = match self.rng.below(20) {
+                0..=8 => self.definition(&mut sc, depth),
+                9 | 10 => self.list_expr(&sc, depth),
+                11 => self.bool_expr(&sc, depth),
+                12 | 13 => self.data_expr(&sc, depth),
+                14 if self.fail_per_mille > 0 => {
+                    self.feat("fail:syntax-form");
+                    a(*self.rng.pick(&["(if)", "(if 1 2 3 4)", "(lambda (x))", "(set! 5 1)", "(lambda (1) 1)", "(let ((x)) x)", "()", "(when 1)", "(quote)"]))
+                }
+                _ => self.int_expr(&sc, depth),
+            };
+            forms.push(f.render());
+        }
+        forms
+    }
+}
+
+/// definitions that no generated session refers to
+fn unrelated(rng: &mut Rng) -> Vec<String> {
+    let mut v = vec![];
+    for i in 0..(2 + rng.below(5)) {
+        v.push(match rng.below(6) {
+            0 => format!("(define zz-unrelated-{} {})", i, rng.range(-50, 50)),
+            1 => format!("(define (zz-unrelated-{} x . r) (if (null? r) (* x 2) (apply + x r)))", i),
+            2 => format!("(define zz-unrelated-{} (list 1 'a \"s\" (vector {})))", i, rng.range(0, 9)),
+            3 => format!("(define zz-unrelated-{} (let ((n 0)) (lambda () (set! n (+ n 1)) n)))", i),
+            4 => format!("(define zz-unrelated-{} (delay (+ 1 {})))", i, rng.range(0, 9)),
+            _ => format!("(define (zz-unrelated-{} f) (lambda (y) `(,f ,y #(,y))))", i),
+        });
+    }
+    v
+}
+
+fn request(feats: &BTreeSet<&'static str>, forms: &[String]) -> String {
+    let f = if feats.is_empty() { "-".to_string() } else { feats.iter().cloned().collect::<Vec<_>>().join("+") };
+    let texts: Vec<String> = forms.iter().map(|t| enc_text(t)).collect();
+    format!("eval-session {} F:{} {}", FUEL, f, texts.join(" "))
+}
+
+fn emit_session(out: &mut impl Write, label: &str, feats: &BTreeSet<&'static str>, forms: &[String], rng: &mut Rng) {
+    let req = request(feats, forms);
+    let obs = run_session(forms, None);
+    writeln!(out, "{}\t{}\t{}", req, obs, req).unwrap();
+    let again = run_session(forms, None);
+    writeln!(out, "#oracle fresh-vm {}\t{}\t{}", label, again, obs).unwrap();
+    let u = unrelated(rng);
+    let with = run_session(forms, Some(&u));
+    writeln!(out, "#oracle independence {}\t{}\t{}", label, with, obs).unwrap();
+}
+
+/// sessions that hit the known findings (feature-keyed)
+fn finding_session(g: &mut Gen, k: u64) -> Vec<String> {
+    let sc = Sc { global: true, ..Default::default() };
+    let x = g.int_expr(&sc, 1).render();
+    let y = g.int_expr(&sc, 1).render();
+    match k % 3 {
+        0 => {
+            g.feat("finding:dotted-unquote");
+            match g.rng.below(3) {
+                0 => vec![format!("`(1 . ,{})", x)],
+                1 => vec![format!("(define (dq a) `(k ,a . ,(list a {})))", y), "(dq 3)".into()],
+                _ => vec![format!("(let ((t {})) `((a . ,t) b))", x)],
+            }
+        }
+        1 => {
+            g.feat("finding:toplevel-begin-define");
+            match g.rng.below(2) {
+                0 => vec![format!("(begin (define tb1 {}) (define tb2 {}))", x, y), "(+ tb1 tb2)".into()],
+                _ => vec![format!("(begin (define (tbf q) (+ q {})) (tbf 1))", x), "(tbf 2)".into()],
+            }
+        }
+        _ => {
+            g.feat("finding:hygiene-capture");
+            match g.rng.below(3) {
+                0 => vec![format!("(define (hy var1) (or #f var1))"), format!("(hy {})", x)],
+                1 => vec![format!("(define (hy temp) (cond ((+ 1 1) => (lambda (v) (+ temp v)))))"), format!("(hy {})", x)],
+                _ => vec![format!("(let ((atom-key {})) (case (+ 1 1) ((2) atom-key) (else 0)))", x)],
+            }
+        }
+    }
+}
 
 fn main() {
     silence_panics();
-    let (mut vm, log) = new_vm();
-    for line in std::io::stdin().lock().lines() {
-        let line = line.unwrap();
-        if line.trim().is_empty() { continue; }
-        let r = catch(std::panic::AssertUnwindSafe(|| eval_form(&mut vm, &line)));
-        match r {
-            Ok(r) => println!("{}  =>  {}", line, render(&r)),
-            Err(p) => println!("{}  =>  panic {}", line, p),
+    let args: Vec<String> = std::env::args().collect();
+    let mode = args.get(1).map(|s| s.as_str()).unwrap_or("");
+    let n: usize = args.get(2).and_then(|s| s.parse().ok()).unwrap_or(100);
+    let stdout = std::io::stdout();
+    let mut out = std::io::BufWriter::new(stdout.lock());
+    match mode {
+        // generated sessions; every fifth one with injected failures
+        "sessions" => {
+            let mut master = Rng::new(seed() ^ 0xC01);
+            for i in 0..n {
+                let mut g = Gen::new(master.next());
+                if i % 5 == 4 {
+                    g.fail_per_mille = 25;
+                    g.feat("with-failures");
+                }
+                let len = 1 + g.rng.below(12) as usize;
+                let depth = 1 + g.rng.below(3) as usize;
+                let forms = g.session(len, depth);
+                let feats = g.feats.clone();
+                emit_session(&mut out, &format!("s{}", i), &feats, &forms, &mut master);
+            }
         }
-        for l in log.borrow_mut().drain(..) { println!("   out {}", l); }
+        "findings" => {
+            let mut master = Rng::new(seed() ^ 0xF1D);
+            for i in 0..n {
+                let mut g = Gen::new(master.next());
+                let forms = finding_session(&mut g, i as u64);
+                let feats = g.feats.clone();
+                emit_session(&mut out, &format!("k{}", i), &feats, &forms, &mut master);
+            }
+        }
+        // corpus/C01/*.scm: one form per line, `;` comment lines skipped
+        "corpus" => {
+            let dir = args.get(2).cloned().unwrap_or_else(|| "/verif/corpus/C01".into());
+            let mut master = Rng::new(seed() ^ 0xC0);
+            let mut files: Vec<_> = std::fs::read_dir(&dir).map(|d| d.filter_map(|e| e.ok()).map(|e| e.path()).collect()).unwrap_or_else(|_| vec![]);
+            files.sort();
+            for p in files {
+                if p.extension().map(|e| e != "scm").unwrap_or(true) {
+                    continue;
+                }
+                let text = std::fs::read_to_string(&p).unwrap_or_default();
+                let forms: Vec<String> = text.lines().map(|s| s.trim().to_string()).filter(|s| !s.is_empty() && !s.starts_with(';')).collect();
+                let mut feats = BTreeSet::new();
+                feats.insert("corpus");
+                let label = p.file_name().unwrap().to_string_lossy().to_string();
+                emit_session(&mut out, &label, &feats, &forms, &mut master);
+            }
+        }
+        // probe: one form per line on stdin
+        "run" => {
+            let (mut vm, log) = fresh_vm();
+            for line in std::io::stdin().lock().lines() {
+                let line = line.unwrap();
+                if line.trim().is_empty() {
+                    continue;
+                }
+                writeln!(out, "{}  =>  {}", line, run_form(&mut vm, &line)).unwrap();
+                for l in log.borrow_mut().drain(..) {
+                    writeln!(out, "   out {}", l).unwrap();
+                }
+            }
+        }
+        // print the generated sessions as text (debugging)
+        "show" => {
+            let mut master = Rng::new(seed() ^ 0xC01);
+            for i in 0..n {
+                let mut g = Gen::new(master.next());
+                if i % 5 == 4 {
+                    g.fail_per_mille = 25;
+                }
+                let len = 1 + g.rng.below(12) as usize;
+                let depth = 1 + g.rng.below(3) as usize;
+                let forms = g.session(len, depth);
+                writeln!(out, ";; session {} {:?}", i, g.feats).unwrap();
+                for f in forms {
+                    writeln!(out, "{}", f).unwrap();
+                }
+                let _ = unrelated(&mut master);
+            }
+        }
+        _ => {
+            eprintln!("usage: eval sessions N | findings N | corpus [DIR] | run | show N");
+            std::process::exit(2);
+        }
     }
 }
